@@ -261,7 +261,11 @@ def _process_pattern_group(
     """Process a group of patterns with the same hash."""
     if _should_skip_patterns(patterns, config):
         return
-    violations.extend(_build_violation(p, patterns, rule_id) for p in patterns)
+    violations.extend(
+        _build_violation(p, patterns, rule_id)
+        for p in patterns
+        if p.variable_name not in config.exclude_variables
+    )
     for pattern in patterns:
         if pattern.variable_name:
             covered_variables.add(pattern.variable_name)
@@ -329,7 +333,7 @@ def _process_variable(  # pylint: disable=too-many-arguments,too-many-positional
     violations: list[Violation],
 ) -> None:
     """Process comparisons for a single variable."""
-    if variable_name in covered_variables:
+    if variable_name in covered_variables or variable_name in config.exclude_variables:
         return
     if _should_skip_variable(variable_name):
         return
